@@ -94,7 +94,7 @@ func genC19Script(rt *rapid.T, gates bool) []tOp {
 		if len(ts) > 0 {
 			choices = append(choices, "refresh", "refresh2", "stop", "clear", "clear2", "clearAtDue", "refreshAtDue", "advanceDue", "advanceDue", "advanceDue", "clearNil")
 			if gates {
-				choices = append(choices, "gateTickClear", "gateTickPass", "gateStopDouble", "gateTickClear", "gateTimeoutClear", "gateTimeoutClear", "gateTimeoutPass")
+				choices = append(choices, "gateTickClear", "gateTickPass", "gateStopDouble", "gateTickClear", "gateTimeoutClear", "gateTimeoutClear", "gateTimeoutPass", "gateTimeoutClearRefresh", "gateTimeoutClearRefresh")
 			}
 		}
 		k := rapid.SampledFrom(choices).Draw(rt, l+".kind")
@@ -173,7 +173,7 @@ func genC19Script(rt *rapid.T, gates bool) []tOp {
 					ops = append(ops, tOp{Kind: k, I: i})
 				}
 			}
-		case "gateTimeoutClear", "gateTimeoutPass":
+		case "gateTimeoutClear", "gateTimeoutPass", "gateTimeoutClearRefresh":
 			// the same window of a timeout: its goroutine has received the tick and not yet started the callback
 			var cand []int
 			for i, t := range ts {
@@ -504,9 +504,9 @@ func runC19(ops []tOp, w *c19World) {
 			} else {
 				m.armed, m.due = true, w.now()+m.d
 			}
-		case "gateTickClear", "gateTickPass", "gateTimeoutClear", "gateTimeoutPass":
+		case "gateTickClear", "gateTickPass", "gateTimeoutClear", "gateTimeoutPass", "gateTimeoutClearRefresh":
 			m := w.ts[o.I]
-			isTimeout := o.Kind == "gateTimeoutClear" || o.Kind == "gateTimeoutPass"
+			isTimeout := o.Kind == "gateTimeoutClear" || o.Kind == "gateTimeoutPass" || o.Kind == "gateTimeoutClearRefresh"
 			if !m.armed || m.interval == isTimeout {
 				continue
 			}
@@ -549,14 +549,14 @@ func runC19(ops []tOp, w *c19World) {
 				delete(g.plan, gp)
 				g.mu.Unlock()
 				w.settleTo(w.now(), -1)
-				if o.Kind == "gateTickClear" || o.Kind == "gateTimeoutClear" {
+				if o.Kind == "gateTickClear" || o.Kind == "gateTimeoutClear" || o.Kind == "gateTimeoutClearRefresh" {
 					w.prompt(what, func() { utils.ClearInterval(m.t) })
 					m.armed = false
 				}
 				break
 			}
 			w.stats[o.Kind] = true
-			if o.Kind == "gateTickClear" || o.Kind == "gateTimeoutClear" {
+			if o.Kind == "gateTickClear" || o.Kind == "gateTimeoutClear" || o.Kind == "gateTimeoutClearRefresh" {
 				// cancel inside the window between tick and re-arm. The loop goroutine is held right after it
 				// received the tick, the cancellation returns (prompt checks that) before the goroutine is let
 				// go: whatever callback of this timer starts afterwards starts after the cancellation returned,
@@ -566,6 +566,12 @@ func runC19(ops []tOp, w *c19World) {
 				m.opt = m.opt[:nopt]
 				w.prompt(what+" (inside tick window)", func() { utils.ClearInterval(m.t) })
 				m.armed = false
+				if o.Kind == "gateTimeoutClearRefresh" {
+					// ... and the cancelled timeout is refreshed before the held goroutine goes on: the callback of the
+					// cancelled round still must not start; the refreshed round is due one full period from now
+					m.t.Refresh()
+					m.armed, m.due = true, w.now()+m.d
+				}
 			} else {
 				w.settleTo(w.now(), -1)
 			}
@@ -683,7 +689,7 @@ func TestC19TimersGated(t *testing.T) {
 	col := NewCollector("TestC19TimersGated",
 		"as TestC19Timers, plus gate steps that park the interval goroutine between receiving its tick and re-arming (vhook timer.interval.tick) and cancel it inside that window, and park a canceller between stopping the runtime timer and signalling (vhook timer.Stop.stopped) while a second cancellation runs. non-trivial: as TestC19Timers or a gate fired").Use(t)
 	rapid.Check(t, c19Property(t, col, true))
-	col.RequireClasses(t, "gateTickClear", "gateTickPass", "gateStopDouble", "concurrent-refresh.fired-or-stopped", "gateTimeoutClear", "gateTimeoutPass")
+	col.RequireClasses(t, "gateTickClear", "gateTickPass", "gateStopDouble", "concurrent-refresh.fired-or-stopped", "gateTimeoutClear", "gateTimeoutPass", "gateTimeoutClearRefresh")
 }
 
 // TestC19IntervalTickWindow is the deterministic demonstration of the defect
